@@ -6,9 +6,9 @@ import tempfile
 
 from eliot import FileDestination, add_destinations, register_exception_extractor, remove_destination
 
-from vf import excs, faults, gen
+from vf import excs, faults, gen, shutdown
 from vf.interp import Interp
-from vf.runner import h
+from vf.runner import REPO, h
 from vf.tape import MaskedDestination, Recorder, Tape
 
 ID = "C07"
@@ -22,7 +22,11 @@ RULE = ("each forked case runs a ProgGen program through the production Logger w
         "registered on Exception/BaseException, i.e. on bases of their own exception) are registered on random classes of the pool's "
         "MROs. Monitor: every public API call returns normally, the exception leaving every block is the object the body raised, "
         "log_call / preserved callables return the function's own result object. non-trivial = >=1 injected fault actually fired; "
-        "distinct by (fault kind x message kind hit) signature of the run plus program shape")
+        "distinct by (fault kind x message kind hit) signature of the run plus program shape. Part of the messages go through the standard "
+        "library bridge (EliotHandler): plain records, object messages, text with per cent signs and no arguments, arguments that do not fit "
+        "the format string. Part 'shutdown': fresh interpreters whose leftover objects (module global, reference cycle, function "
+        "attribute) log messages, actions and tasks with rich field values from __del__ while the interpreter is being torn down; every "
+        "such call must return")
 ASSUMPTIONS = ["destinations, serializers and extractors raise Exception subclasses; extractors return dicts",
                "a MemoryLogger appears as explicit logger argument of part of the calls (it must not raise either); what it records is judged by C14/C16"]
 
@@ -44,7 +48,29 @@ CLASSMAP = dict(excs.POOL, BaseException=BaseException, Exception=Exception, Loo
 
 def plan(tier, seed):
     n = 6000 if tier == "quick" else 60000
-    return [{"seed": seed, "i": i} for i in range(n)]
+    specs = [{"seed": seed, "i": i} for i in range(n)]
+    combos = [(d, hw, v) for d in shutdown.DESTS for hw in shutdown.HOWS for v in sorted(shutdown.EXPECTED_JSON)]
+    random.Random("%s:C07:shutdown" % seed).shuffle(combos)
+    specs += [{"part": "shutdown", "seed": seed, "dest": d, "how": hw, "value": v} for d, hw, v in (combos[:12] if tier == "quick" else combos)]
+    return specs
+
+
+def shutdown_case(spec):
+    """Logging calls made from finalizers that run while the interpreter shuts down (a fresh interpreter per case)."""
+    res = {"evals": 1, "nontrivial": [], "counters": {}, "violations": [], "sets": {}}
+    import subprocess
+    try:
+        out = shutdown.run_probe(REPO, {"dest": spec["dest"], "how": spec["how"], "value": spec["value"]})
+    except subprocess.TimeoutExpired:
+        return {"inconclusive": "the shutdown probe did not finish in time"}
+    problems, inc = shutdown.judge_no_raise(out)
+    if inc:
+        return {"inconclusive": inc}
+    res["counters"]["logging_calls_made_during_interpreter_shutdown"] = 3
+    res["nontrivial"].append(h(["shutdown", spec["dest"], spec["how"], spec["value"]]))
+    if problems:
+        res["violations"].append({"msg": problems[0], "mech": None, "detail": {"problems": problems, "spec": spec, "stderr": out["stderr"][-10:]}})
+    return res
 
 
 def kind_of(m):
@@ -62,6 +88,8 @@ def kind_of(m):
 
 
 def run_case(spec):
+    if spec.get("part") == "shutdown":
+        return shutdown_case(spec)
     rng = random.Random("%s:C07:%d" % (spec["seed"], spec["i"]))
     res = {"evals": 1, "nontrivial": [], "counters": {}, "violations": [], "sets": {"fault_x_message_kind": [], "hostile_value_types": []}}
     fired = {"dest": 0, "ser": 0, "extractor": 0, "hostile": 0}
@@ -129,7 +157,8 @@ def run_case(spec):
         return wrapped
 
     g = gen.ProgGen(rng, max_depth=rng.choice([2, 3, 4]), max_nodes=rng.choice([8, 20, 40]), value_depth=1,
-                    hostile=hostile if use_hostile else None, fail_p=0.4, early_finish_p=0.2, extra_styles=("pre_created", "ctx_finish_inside"))
+                    hostile=hostile if use_hostile else None, fail_p=0.4, early_finish_p=0.2, extra_styles=("pre_created", "ctx_finish_inside"),
+                    msg_styles=gen.MSG_STYLES + ["stdlib"])
     prog = g.program()
     st = gen.prog_stats(prog)
 
@@ -163,6 +192,7 @@ def run_case(spec):
     it.late_calls = True
     it.tb_without_exception = True
     it.memory_loggers = True
+    it.stdlib_bad_format = True
     it.strict_warnings = spec["i"] % 3 == 0  # a third of the processes run with warnings turned into errors
     try:
         it.run(prog)
@@ -217,6 +247,8 @@ def finalize(agg, tier):
             return "fault kind %s fired only %d times" % (k, f.get(k, 0))
     if agg["counters"].get("file_destination_encode_failures", 0) < 20:
         return "hostile values rarely reached the file destination"
+    if agg["counters"].get("logging_calls_made_during_interpreter_shutdown", 0) < 9:
+        return "too few logging calls were made during interpreter shutdown"
     kinds = set(agg["sets"].get("fault_x_message_kind", {}))
     need = ["dest_fault@action_started", "dest_fault@action_succeeded", "dest_fault@action_failed", "dest_fault@in_action_message",
             "dest_fault@contextless_message", "dest_fault@traceback", "dest_fault@destination_failure_report",
